@@ -126,6 +126,15 @@ def q_rows(case, out):
     return rows
 
 
+def step_groups(case, out):
+    """(step index, rows) batches handed to Model.HMC.hmc_step over Q: the q_rows of one step with a finite ln u"""
+    g = {}
+    for (si, r) in q_rows(case, out):
+        if math.isfinite(bf(out["steps"][si]["ln_u"][r])):
+            g.setdefault(si, []).append(r)
+    return sorted(g.items())
+
+
 def coq_term(case, out):
     if "panic" in out:
         return None
@@ -142,6 +151,13 @@ def coq_term(case, out):
         x = qlist([bf(b) for b in st["pos_before"][r * d:(r + 1) * d]])
         p = qlist([bf(b) for b in st["momenta"][r * d:(r + 1) * d]])
         parts.append("hmc_eval_q %s %s %s %s %s %s" % (qt[0], qt[1], dy(bf(case["eps"])), C.natlit(case["L"]), x, p))
+    for si, rs in step_groups(case, out):
+        st = out["steps"][si]
+        d = st["dim"]
+        xs = "[" + "; ".join(qlist([bf(b) for b in st["pos_before"][r * d:(r + 1) * d]]) for r in rs) + "]"
+        ps = "[" + "; ".join(qlist([bf(b) for b in st["momenta"][r * d:(r + 1) * d]]) for r in rs) + "]"
+        lnus = qlist([bf(st["ln_u"][r]) for r in rs])
+        parts.append("hmc_step_eval_q %s %s %s %s %s %s %s" % (qt[0], qt[1], dy(bf(case["eps"])), C.natlit(case["L"]), xs, ps, lnus))
     return " ++ ".join("(%s)" % q for q in parts)
 
 
@@ -165,6 +181,7 @@ def compare(case, out, model):
     # the tensor-based targets store their parameters through `from_floats` (f32) also on f64 backends, so the
     # f64 paths deliver f32-level accuracy (C15's quantifier says so); hence no tighter tolerance for f64
     tol = Fraction(1, 2 ** 10) if case["f"] == "f32" else Fraction(1, 2 ** 13)
+    exact = {}
     for (si, r) in q_rows(case, out):
         st = out["steps"][si]
         d = st["dim"]
@@ -177,6 +194,11 @@ def compare(case, out, model):
         xs = [q() for _ in range(d)]
         ps = [q() for _ in range(d)]
         dH, lp0, lp1 = q(), q(), q()
+        same = model[pos]
+        pos += 1
+        if same != 1:
+            return "model: leapfrog_impl (the loop as coded) and leapfrog (textbook form) differ on step %d row %d" % (si, r)
+        exact[(si, r)] = (dH, 1 + abs(lp0) + abs(lp1) + sum(p * p for p in ps))
         ix = [Fraction(bf(b)) for b in st["pos_proposed"][r * d:(r + 1) * d]]
         ip = [Fraction(bf(b)) for b in st["mom_proposed"][r * d:(r + 1) * d]]
         if not all(math.isfinite(bf(b)) for b in st["pos_proposed"][r * d:(r + 1) * d] + st["mom_proposed"][r * d:(r + 1) * d]):
@@ -194,6 +216,27 @@ def compare(case, out, model):
                 return "step %d row %d: energy difference %.9g, exact H(x,p)-H(x',p') = %.9g" % (si, r, bf(st["accept_logp"][r]), float(dH))
             if abs(Fraction(bf(st["logp_current"][r])) - lp0) > tol * escale * 4:
                 return "step %d row %d: log p(x) %.9g, exact %.9g" % (si, r, bf(st["logp_current"][r]), float(lp0))
+    # whole step in exact arithmetic (Model.HMC.hmc_step over Q): new positions, where the decision is not within rounding of a tie
+    for si, rs in step_groups(case, out):
+        st = out["steps"][si]
+        d = st["dim"]
+        for r in rs:
+            row = []
+            for _ in range(d):
+                row.append(Fraction(model[pos], model[pos + 1]))
+                pos += 2
+            dH, escale = exact[(si, r)]
+            lnu = Fraction(bf(st["ln_u"][r]))
+            got = [bf(b) for b in st["pos_after"][r * d:(r + 1) * d]]
+            if abs(lnu - dH) <= tol * escale * 16 or not all(math.isfinite(v) for v in got):
+                continue
+            scale = 1 + max(abs(v) for v in row + [Fraction(bf(b)) for b in st["pos_before"][r * d:(r + 1) * d]])
+            for j in range(d):
+                if abs(Fraction(got[j]) - row[j]) > tol * scale * 4:
+                    return ("step %d row %d coord %d: position after the step %.9g, exact hmc_step gives %.9g (ln u = %.6g, "
+                            "H(x,p)-H(x',p') = %.6g)" % (si, r, j, got[j], float(row[j]), float(lnu), float(dH)))
+    if pos != len(model):
+        return "internal: %d model numbers, %d consumed" % (len(model), pos)
     return None
 
 
